@@ -52,6 +52,55 @@ CHECKS = {
             "Payload lengths 0..300 exhaustively and up to 70,000 in every push form, ASCII/UTF-8/invalid/newline/control payloads mixed with all "
             "other script types x 8 coins x ranges; stdout minus log lines must equal the model's line sequence exactly.",
             "OP_RETURN scripts that are not exactly one push are unconstrained; payloads never look like log lines."),
+    "C04": ("exploration", "trace-spec monitor over the delivery log (exact sequence + prev links) + reference model of the active chain alone",
+            "DESIGN.md §4 C04, §5",
+            "Indexes with an active chain plus header-only / failed records and one data-bearing competitor class (stale, failed, reorged-out; "
+            "occupied height or beyond the tip; key sorted before/after the active block; branch length 1..3) are run for real; the delivered hash "
+            "sequence must be the active chain with intact prev links and every output must equal the model. Four competitor shapes are recorded "
+            "known findings (KNOWN_FINDINGS.txt); every other deviation, including an unexpected one inside such a case, is a violation.",
+            "Status semantics of Bitcoin Core's BlockStatus; one data-bearing competitor class per index so that attribution is exact."),
+    "C07": ("exploration", "reference-model monitor over bounded-exhaustive and random spend histories (row multiset of real unspentcsvdump runs)",
+            "DESIGN.md §4 C07",
+            "All event sequences of <=4 (quick) / <=5 (thorough) events over a 10-letter alphabet, in every split over <=3 blocks, packed as "
+            "independent lanes into real chains, x ranges x 3 coins, plus random long histories: header, row multiset, no duplicates and totals "
+            "must equal the model UTXO set.",
+            "UTXO semantics as stated in the property; addresses from the C05/C06 reference for pinned script shapes only."),
+    "C08": ("exploration", "reference-model monitor + two-run relation monitor (balances vs aggregated unspent dump)",
+            "DESIGN.md §4 C08",
+            "C07 histories plus address-sharing, P2PK/P2PKH of one key, spent-and-refunded addresses and sums up to just below 2^64; the real "
+            "balances file must equal the model and the aggregation of the unspent dump produced from the same directory and range.",
+            "Per-address sums below 2^64."),
+    "C09": ("fault_enumeration", "fault enumeration on stored bytes (single-bit flips, block swaps, wrong genesis) with exit-status/stderr/directory oracle; completeness by model",
+            "DESIGN.md §4 C09",
+            "Completeness: every tx count 1..64 and larger trees, start offsets, 8 coins with real genesis blocks where reconstructible. "
+            "Soundness: all 256 bits of the merkle and prev fields of targeted blocks, sampled (quick) or all (thorough) bits of txid-covered tx "
+            "bytes, foreign-block swaps and wrong genesis must make the run fail at that height with no final-named output.",
+            "Unparsable-after-flip counts as rejected; corruption applied to block bytes while the index keeps the original hash."),
+    "C10": ("fault_enumeration", "fault enumeration (file faults, RLIMIT_FSIZE, strace-injected write errors, SIGKILL at syscall ordinals) with outcome oracle + trace spec over strace logs",
+            "DESIGN.md §4 C10",
+            "Input faults at every height x kind x truncation point; output faults on a size-limit grid and at every k-th write; SIGKILL at every "
+            "ordinal of every output syscall; outcome oracle (exit 0 => complete final files and no tmp; failure => no final file), trace spec "
+            "'final names only via rename(tmp->final), no write after rename', crash oracle 'no partial final-named file'.",
+            "Kill points are syscall boundaries touching output paths; kernel-level torn writes and fsync semantics out of scope."),
+    "C12": ("exploration", "reference-model monitor on real runs over generated AuxPoW sections",
+            "DESIGN.md §4 C12",
+            "AuxPoW sections of arbitrary shape (legacy/segwit parent coinbase, branch lengths 0..40 and 252..300) on namecoin/dogecoin for "
+            "versions below/at/above the threshold, mixed chains, and the six other coins as negative control; csvdump (+unspent/simplestats) "
+            "with --verify must equal the model that ignores the section.",
+            "Section layout per the merged-mining specification."),
+    "C13": ("exploration", "cross-run equality monitor under varied schedules (thread counts, in-task delay injection, CPU pinning) with hook-proved work splitting; run-history monitor with input-integrity digests and strace spec; ThreadSanitizer (thorough)",
+            "DESIGN.md §4 C13",
+            "The same directory is run under 6 thread counts x jitter seeds x CPU contention; all callbacks must agree with each other and the "
+            "model; H3 log proves blocks were split across workers and counts distinct thread->task maps. Run sequences into a dirty dump folder "
+            "with the index reopened 11 times: results unchanged, blk/xor digests and index key/value dump unchanged, no write-type syscall on "
+            "input files. Thorough adds a TSan build.",
+            "Only observed interleavings count; jitter sleeps inside tasks; TSan reports inside dependencies are listed as inconclusive."),
+    "C15": ("exploration", "reference-model monitor: parsed report vs exact rational recomputation, on debug and release builds; direct get_mean monitor through the tool mode",
+            "DESIGN.md §4 C15",
+            "Chains with all script types, non-monotonic timestamps, ties, multiple coinbase-shaped txs, halving boundaries and gap sums above "
+            "2^32 x coins x ranges on both builds; every figure of the real report equals the exact recomputation at printed precision; "
+            "get_mean checked on thousands of u32 multisets including sums above 2^32.",
+            "No block with timestamp 0; heights below 64*210000; value sums below 2^64."),
     "C17": ("exploration", "trace-spec monitor over /proc/self/fd census events + RLIMIT_NOFILE black-box monitor",
             "DESIGN.md §4 C17",
             "Real runs over 1..100/300-file layouts (disjoint, overlapping, interleaved, revisited) and ranges; after every block the real set of "
